@@ -212,8 +212,12 @@ func init() {
 				a.park(e, fmt.Sprintf("locked:%d", k))
 			}
 		case "unlocked":
+			// the event is raised after the real Unlock: a forced waiter may already have taken the lock (and
+			// recorded itself as the holder) before this event arrives - only the unlocking actor's own entry goes
 			e.mu.Lock()
-			delete(e.holder, seq)
+			if e.holder[seq] == a {
+				delete(e.holder, seq)
+			}
 			e.mu.Unlock()
 		}
 	})
